@@ -1,6 +1,7 @@
 """Miscellaneous Routines."""
 
 import io
+import itertools
 import math
 import pathlib
 import string
@@ -755,11 +756,18 @@ class Plane(Generic[LTComponentT]):
     which is sorted by its x or y coordinate.
     """
 
+    # An object (or a query) whose box covers more grid cells than this is not
+    # filed under (looked up in) every single cell: the work per operation
+    # stays bounded whatever the coordinates are.
+    MAXCELLS = 1024
+
     def __init__(self, bbox: Rect, gridsize: int = 50) -> None:
         self._seq: List[LTComponentT] = []  # preserve the object order.
         self._objs: Set[LTComponentT] = set()
         self._order: Dict[LTComponentT, int] = {}  # insertion rank of each object
         self._grid: Dict[Point, List[LTComponentT]] = {}
+        # objects that cover more than MAXCELLS cells; every query looks at them
+        self._big: List[LTComponentT] = []
         self.gridsize = gridsize
         (self.x0, self.y0, self.x1, self.y1) = bbox
 
@@ -775,7 +783,7 @@ class Plane(Generic[LTComponentT]):
     def __contains__(self, obj: object) -> bool:
         return obj in self._objs
 
-    def _getrange(self, bbox: Rect) -> Iterator[Point]:
+    def _granges(self, bbox: Rect) -> Tuple[range, range]:
         (x0, y0, x1, y1) = bbox
         # Clamp to the plane: anything outside is filed under the border cells,
         # so that objects and queries beyond the bounds still meet.
@@ -783,9 +791,23 @@ class Plane(Generic[LTComponentT]):
         y0 = min(max(self.y0, y0), self.y1)
         x1 = max(min(self.x1, x1), self.x0)
         y1 = max(min(self.y1, y1), self.y0)
-        for grid_y in drange(y0, y1, self.gridsize):
-            for grid_x in drange(x0, x1, self.gridsize):
+        return (drange(x0, x1, self.gridsize), drange(y0, y1, self.gridsize))
+
+    def _getrange(self, bbox: Rect) -> Iterator[Point]:
+        (xr, yr) = self._granges(bbox)
+        for grid_y in yr:
+            for grid_x in xr:
                 yield (grid_x, grid_y)
+
+    def _cells(self, bbox: Rect) -> Optional[List[Point]]:
+        """The grid cells of a box, or None if there are more than MAXCELLS."""
+        (xr, yr) = self._granges(bbox)
+        # not len(): the ranges of astronomic coordinates exceed a C ssize_t
+        nx = max(0, xr.stop - xr.start)
+        ny = max(0, yr.stop - yr.start)
+        if nx * ny > self.MAXCELLS:
+            return None
+        return [(grid_x, grid_y) for grid_y in yr for grid_x in xr]
 
     def extend(self, objs: Iterable[LTComponentT]) -> None:
         for obj in objs:
@@ -793,41 +815,59 @@ class Plane(Generic[LTComponentT]):
 
     def add(self, obj: LTComponentT) -> None:
         """Place an object."""
-        for k in self._getrange((obj.x0, obj.y0, obj.x1, obj.y1)):
-            if k not in self._grid:
-                r: List[LTComponentT] = []
-                self._grid[k] = r
-            else:
-                r = self._grid[k]
-            r.append(obj)
+        cells = self._cells((obj.x0, obj.y0, obj.x1, obj.y1))
+        if cells is None:
+            self._big.append(obj)
+        else:
+            for k in cells:
+                if k not in self._grid:
+                    r: List[LTComponentT] = []
+                    self._grid[k] = r
+                else:
+                    r = self._grid[k]
+                r.append(obj)
         self._seq.append(obj)
         self._objs.add(obj)
         self._order[obj] = len(self._seq)
 
     def remove(self, obj: LTComponentT) -> None:
         """Displace an object."""
-        for k in self._getrange((obj.x0, obj.y0, obj.x1, obj.y1)):
+        cells = self._cells((obj.x0, obj.y0, obj.x1, obj.y1))
+        if cells is None:
             try:
-                self._grid[k].remove(obj)
-            except (KeyError, ValueError):
+                self._big.remove(obj)
+            except ValueError:
                 pass
+        else:
+            for k in cells:
+                try:
+                    self._grid[k].remove(obj)
+                except (KeyError, ValueError):
+                    pass
         self._objs.remove(obj)
 
     def find(self, bbox: Rect) -> Iterator[LTComponentT]:
         """Finds objects that are in a certain area."""
         (x0, y0, x1, y1) = bbox
+        cells = self._cells(bbox)
+        candidates: Iterable[LTComponentT]
+        if cells is None:
+            # a query over more than MAXCELLS cells: look at every object
+            candidates = self
+        else:
+            candidates = itertools.chain(
+                (obj for k in cells if k in self._grid for obj in self._grid[k]),
+                self._big,
+            )
         done = set()
         found = []
-        for k in self._getrange(bbox):
-            if k not in self._grid:
+        for obj in candidates:
+            if obj in done:
                 continue
-            for obj in self._grid[k]:
-                if obj in done:
-                    continue
-                done.add(obj)
-                if obj.x1 <= x0 or x1 <= obj.x0 or obj.y1 <= y0 or y1 <= obj.y0:
-                    continue
-                found.append(obj)
+            done.add(obj)
+            if obj.x1 <= x0 or x1 <= obj.x0 or obj.y1 <= y0 or y1 <= obj.y0:
+                continue
+            found.append(obj)
         # Report the objects in the order in which they were added, not in the
         # order in which the grid cells happen to be scanned: the latter depends
         # on where the fixed-size grid falls, i.e. on the scale of the page.
